@@ -967,9 +967,12 @@ class SymSession:
         h = self.db.hooks
         if h is not None:
             h.on_commit(self)
-        if self.dirty:
+        if self.dirty and self.view is not None:
             self.db.committed = self.view
             self.db.commit_count += 1
+        # a commit inside a still open scope: the next statement starts a
+        # new transaction (autobegin), as with a real Session
+        self.dirty = False
         self.view = None
         if h is not None and hasattr(h, 'after_commit'):
             h.after_commit(self)
